@@ -13,6 +13,7 @@ CONSTANTS
   FnKinds <- FnKindsDef
   FnArgs <- FnArgsT
   FnRets <- FnRetsT
+  VtItems <- VtItemsT
   Extras <- ExtrasT
   SimpAtoms <- SimpAtomsT
 INVARIANT Emit
